@@ -251,6 +251,30 @@ def run(ctx):
                                   "only missing-required messages")
                 if "__type__" not in d2 or d2["__type__"] != o:
                     res.violation("create-output-reloads-as-other-type", dict(case, out=out), d2.get("__type__"), o)
+                # every create() call yields the declared defaults, whatever was done to objects created earlier: edit every
+                # mutable default of this object in place, then create again (twice: fresh call and the call after that)
+                first = core.fp(d)
+                edited = 0
+                for kk, vv in list(d.items()):
+                    if isinstance(vv, list):
+                        vv.append(9999)
+                        if vv:
+                            vv[0] = -12345
+                        edited += 1
+                    elif isinstance(vv, dict):
+                        vv["edited"] = True
+                        edited += 1
+                if edited:
+                    res.count("create_after_edit_cycles")
+                    res.count("create_mutable_defaults_edited", edited)
+                for again in (1, 2):
+                    d3 = mappyfile.create(o, v)
+                    if "label-backgroundshadowsize-schema" in ctx.gated and o == "label":
+                        d3.pop("backgroundshadowsize", None)
+                    if core.fp(d3) != first:
+                        res.violation("create-result-depends-on-edits-of-an-earlier-result", dict(case, again=again),
+                                      core.canon(d3), "the declared defaults")
+                        break
     else:
         res.count("defaults_checked", 0)
     res.count("evaluations", res.counters["slots_parsed"] + res.counters["parent_child_pairs"] + res.counters["create_cycles"] +
